@@ -108,6 +108,7 @@ type Frame struct {
 	curLocalAddrs map[string]SV
 	localsSameBlock bool
 	frame *frameInfo
+	curVisLoop *loopInfo // the loop whose invariants are being evaluated (spec builtin visited(k), ext_crypto.go)
 }
 
 type retRec struct {
@@ -384,7 +385,7 @@ func (fc *FnCtx) registerComp(key, sort string) {
 func (fc *FnCtx) havocComps(st *State, keys map[string]bool, all bool) {
 	if all {
 		for _, k := range fc.compList {
-			if k == "W" || strings.HasPrefix(k, "G|v|") {
+			if k == "W" || strings.HasPrefix(k, "G|v|") || strings.HasPrefix(k, "G|vis|") {
 				continue // auxiliary variables of the function under verification: no callee can write them
 			}
 			st.heap[k] = fc.fresh("H_"+mangle(k), fc.comps[k])
